@@ -40,18 +40,40 @@ func (f *vRFilter) InjectResiliencePolicy(p map[string]resilience.Policy) {
 	f.injected = p
 }
 
+// vTFilter: a kind whose Inherit relies on the previous generation being of its own type, as
+// the RateLimiter filter does
+type vTFilter struct{ vRFilter }
+
+var vTKind = &filters.Kind{Name: "VerifT", Results: []string{},
+	DefaultSpec:    func() filters.Spec { return &vSpec{} },
+	CreateInstance: func(spec filters.Spec) filters.Filter { return &vTFilter{vRFilter{spec: spec}} }}
+
+func (f *vTFilter) Kind() *filters.Kind { return vTKind }
+func (f *vTFilter) Inherit(prev filters.Filter) {
+	_ = prev.(*vTFilter)
+	f.inherits++
+	f.prev = prev
+}
+
+var vKindOfA = "VerifR"
+
 func vGeneration(names []string) *Pipeline {
 	super := &supervisor.Spec{}
 	verifSetField(super, "meta", &supervisor.MetaSpec{Name: "pipe", Kind: Kind})
 	spec := &Spec{}
 	for _, n := range names {
-		spec.Filters = append(spec.Filters, map[string]interface{}{"name": n, "kind": "VerifR"})
+		kind := "VerifR"
+		if n == "a" {
+			kind = vKindOfA
+		}
+		spec.Filters = append(spec.Filters, map[string]interface{}{"name": n, "kind": kind})
 	}
 	return &Pipeline{superSpec: super, spec: spec}
 }
 
 func verifC11_PipelineReload() {
 	filters.Register(vRKind)
+	filters.Register(vTKind)
 	pool := []string{"a", "b", "c"}
 	var in1, in2 [3]bool
 	var n1, n2 []string
@@ -73,8 +95,21 @@ func verifC11_PipelineReload() {
 			verifAssert(f1[i].inits == 1 && f1[i].inherits == 0 && f1[i].injects == 1, "first-generation-filter-initialised-and-injected-once")
 		}
 	}
+	// filter a may keep its name and change its kind in the new generation
+	kindChanged := in1[0] && in2[0] && verifBool("gen2.filterAChangesKind")
+	if kindChanged {
+		vKindOfA = "VerifT"
+	}
 	g2 := vGeneration(n2)
 	g2.reload(g1)
+	vKindOfA = "VerifR"
+	if kindChanged {
+		fa, isT := g2.filters["a"].(*vTFilter)
+		verifAssert(isT && fa.inits == 1 && fa.inherits == 0 && fa.injects == 1, "filter-whose-kind-changed-starts-afresh")
+		verifAssert(f1[0].closed == 0, "old-generation-untouched-by-the-update")
+		verifCover("filter-kind-changed")
+		return
+	}
 	for i, n := range pool {
 		if !in2[i] {
 			_, present := g2.filters[n]
